@@ -272,8 +272,20 @@ def r08_2(ctx, rep):
     # arguments unwrapped from a nested class modification `x(start = p)` keep the scope of the argument they were nested in
     from ..pyutil import stmt_list_of
     env = _env_of(fn)
+    # ... for modifications that end up on a SYMBOL (the receiver is later stored in / merged into <symbol>.class_modification).  A list that is
+    # handed to the recursive build_instance_tree of a nested class is an environment again and is taken apart by this same code one level down.
+    def _feeds_symbol(recv):
+        r = norm(recv).split(".")[0]
+        for x in ast.walk(fn):
+            if isinstance(x, ast.Assign) and norm(x.targets[0]).endswith(".class_modification") and norm(x.value) == r:
+                return True
+            if isinstance(x, ast.Call) and isinstance(x.func, ast.Attribute) and x.func.attr in ("extend", "append") and norm(x.func.value).endswith(".class_modification.arguments") \
+                    and x.args and norm(x.args[0]).split(".")[0] == r:
+                return True
+        return False
+
     for recv, argx, node in _merge_sites(fn):
-        if _role(recv, env) == "from_env" and _role(argx, env) == "env_part" and isinstance(argx, ast.Attribute) and isinstance(argx.value, ast.Name):
+        if _role(recv, env) == "from_env" and _role(argx, env) == "env_part" and isinstance(argx, ast.Attribute) and isinstance(argx.value, ast.Name) and _feeds_symbol(recv):
             el = argx.value.id
             lv = _enclosing_arg_loop(node, fn)
             st = node
